@@ -447,9 +447,9 @@ func detGenerated(g *Gen, n int) [][2]string {
 		{"typelist", `(str (typelist))`},
 		{"struct-decl", `(struct Car [(field Wheels: int64) (field Name: string)]) (def c (Car Wheels:4 Name:"b")) (str c)`},
 		{"struct-decl", `(struct Pt [(field X: int64) (field Y: int64)]) (def p (Pt X:1 Y:2)) (json p)`},
-		{"package-dump", `(package pk { A := 1; b := 2; Cc := "s"; d := [1 2 3] }) (str pk)`},
-		{"package-dump", `(package pk1 { A := 1 }) (package pk2 { B := pk1.A; C := 4 }) (printf "%v\n" (str pk2)) (str pk1)`},
-		{"package-dump", `(def h (hash a:1)) (package pq { X := h; Y := h; Z := (fn [q] (+ q 1)) }) (str pq)`},
+		{"package-dump", `(def pk (package "pk" { A := 1; b := 2; Cc := "s"; d := [1 2 3] })) (str pk)`},
+		{"package-dump", `(def pk1 (package "pk1" { A := 1 })) (def pk2 (package "pk2" { B := pk1.A; C := 4 })) (printf "%v\n" (str pk2)) (str pk1)`},
+		{"package-dump", `(def h (hash a:1)) (def pq (package "pq" { X := h; Y := h; Z := (fn [q] (+ q 1)) })) (str pq)`},
 		{"fn-print", `(defn f [a b] (+ a b)) (str f)`},
 		{"hash-of-builtin-keys", `(def h (hash car:1 cdr:2 cons:3)) (str h)`},
 		{"sort-symbols", `(sort (fn [a b] (< a b)) (quote (zeta car alpha cdr mid)))`},
@@ -482,7 +482,7 @@ func detGenerated(g *Gen, n int) [][2]string {
 				detPick(g, []string{"t", "tag", ""}), detPick(g, []string{"vinner", "VInner"}), g.Rng.Intn(100), detPick(g, []string{"a", "bb"})))
 		case 8:
 			ks := detKeys(g, 4)
-			add("package-dump", fmt.Sprintf(`(package pz { %s := %d; %s := %d; %s := "v"; %s := [1 2] }) (str pz)`,
+			add("package-dump", fmt.Sprintf(`(def pz (package "pz" { %s := %d; %s := %d; %s := "v"; %s := [1 2] })) (str pz)`,
 				strings.ToUpper(ks[0][:1])+ks[0][1:], g.Rng.Intn(50), ks[1], g.Rng.Intn(50), ks[2], ks[3]))
 		}
 	}
@@ -566,7 +566,7 @@ func detMsgpackDoc(g *Gen, withOrder bool) string {
 		str("Atype")
 		str("hash")
 	}
-	return base64.StdEncoding.EncodeToString(b)
+	return base64.URLEncoding.EncodeToString(b)
 }
 
 func detZyString(s string) string {
@@ -579,17 +579,21 @@ func detObserveDecoded(g *Gen) string {
 	obs := []string{
 		`(map (fn [s] (symnum s)) (keys h))`,
 		`(let [k (keys h)] (list (< (aget k 0) (aget k 1)) (> (aget k 0) (aget k 1)) (== (aget k 0) (aget k 1))))`,
-		`(sort (fn [a b] (< a b)) (apply list (keys h)))`,
+		`(map (fn [a] (map (fn [b] (< a b)) (keys h))) (keys h))`,
 		`(begin (range k v h (printf "%v=%v;" k v)) (keys h))`,
 		`(list (str h) (len h) (hpair h 0))`,
 		`(list (gensym) (symnum (str2sym "zqlate")))`,
 		`(raw2str (json h))`,
 		`(let [h2 (hash)] (range k v h (hset h2 k (symnum k))) (str h2))`,
-		`(hget h (str2sym "nosuchkey"))`,
 	}
 	k := 2 + g.Rng.Intn(3)
 	g.Rng.Shuffle(len(obs), func(i, j int) { obs[i], obs[j] = obs[j], obs[i] })
-	return "(list " + strings.Join(obs[:k], " ") + ")"
+	p := "(list " + strings.Join(obs[:k], " ") + ")"
+	if g.Rng.Intn(5) == 0 {
+		// an error text after the observations were printed
+		p = "(println " + p + `) (hget h (str2sym "nosuchkey"))`
+	}
+	return p
 }
 
 // detDecodePrograms: kind, program.
@@ -631,8 +635,14 @@ func detGen(g *Gen) {
 	for _, kp := range detGenerated(g, ngen) {
 		emit(kp[0], kp[1], nproc, nrun)
 	}
+	// 2..8 names that only the decoder sees: 12 runs (3 processes x 4 interpreters) leave an
+	// order-dependent numbering of even two names a chance of 2^-11 to go unnoticed
+	dproc, drun := 3, 4
+	if g.Thorough() {
+		dproc, drun = nproc, nrun
+	}
 	for _, kp := range detDecodePrograms(g, ngen) {
-		emit(kp[0], kp[1], nproc, nrun)
+		emit(kp[0], kp[1], dproc, drun)
 	}
 	// observe first, change a setting afterwards: the second interpreter of a process must
 	// start like the first did (the settings are drawn from every builtin: see ch_interf.go)
@@ -640,7 +650,8 @@ func detGen(g *Gen) {
 	for i := 0; i < ngen/3 && len(calls) > 0; i++ {
 		c := calls[g.Rng.Intn(len(calls))]
 		obs := interfGeneralBattery()[g.Rng.Intn(len(interfGeneralBattery()))]
-		emit("observe-then-call", "(def zzobs (begin "+obs+")) "+c+" zzobs", nproc, nrun)
+		// a setting that leaks shows in the second interpreter of the first process already
+		emit("observe-then-call", "(def zzobs (begin "+obs+")) "+c+" zzobs", 2, 3)
 	}
 }
 
